@@ -10,6 +10,7 @@ mod mutate;
 mod observe;
 mod props;
 mod rng;
+mod schema;
 mod session;
 mod shrink;
 mod simreader;
